@@ -133,6 +133,20 @@ func headThresholds(p *packages.Package) []string {
 	}
 	for _, s := range fd.Body.List {
 		walk(s)
+		// the same chain written as a tagless switch: `switch { case v <= X: … case v <= Y: … default: … }`
+		if sw, ok := s.(*ast.SwitchStmt); ok && sw.Tag == nil {
+			for _, c := range sw.Body.List {
+				cc, ok := c.(*ast.CaseClause)
+				if !ok || len(cc.List) != 1 {
+					continue
+				}
+				if be, ok := cc.List[0].(*ast.BinaryExpr); ok && be.Op == token.LEQ {
+					if v, ok := evalConst(p, be.Y); ok {
+						out = append(out, fmt.Sprint(v))
+					}
+				}
+			}
+		}
 	}
 	return out
 }
